@@ -249,6 +249,8 @@ func runC19(c *run.Ctx) {
 			return
 		}
 		var current int64 = -1
+		exeCache := map[string]*ggql.Executable{}
+		reusedExe := 0
 		var entries []*subModelEntry
 		var hist []string
 		steps := 5 + r.Intn(56)
@@ -275,7 +277,33 @@ func runC19(c *run.Ctx) {
 				text := subRequestText(topic, h.sels)
 				hist = append(hist, fmt.Sprintf("subscribe#%d topic=%s fail=%v %s", h.sid, topic, keysOfBool(h.failOn), strings.TrimSpace(text)))
 				var res map[string]interface{}
-				pv, _ := run.Protect(func() { res = root.ResolveString(text, "", nil) })
+				// a third of the subscription requests are made with a parsed executable that is kept and used again for the
+				// next subscription with the same text (one client library, many connections)
+				viaExe := r.Intn(3) == 0
+				pv, _ := run.Protect(func() {
+					if !viaExe {
+						res = root.ResolveString(text, "", nil)
+						return
+					}
+					exe := exeCache[text]
+					if exe == nil {
+						var perr error
+						if exe, perr = root.ParseExecutableString(text); perr != nil {
+							res = map[string]interface{}{"errors": perr.Error()}
+							return
+						}
+						exeCache[text] = exe
+					} else {
+						reusedExe++
+					}
+					hist[len(hist)-1] += "  [ResolveExecutable on the kept parsed executable]"
+					var rerr error
+					if res, rerr = root.ResolveExecutable(exe, "", nil); rerr != nil {
+						res = map[string]interface{}{"errors": rerr.Error()}
+					} else if res == nil {
+						res = map[string]interface{}{}
+					}
+				})
 				if pv != nil {
 					fail(fmt.Sprintf("subscribe panics: %v", pv))
 					bad = true
@@ -396,6 +424,7 @@ func runC19(c *run.Ctx) {
 			}
 			lg.mu.Unlock()
 		}
+		c.Count("subscriptions_via_reused_parsed_executable", reusedExe)
 		c.Eval(strings.Join(hist, "\n"), len(entries) >= 2 && multi && removal)
 		c.Bucket("history_length", fmt.Sprint(steps/10*10))
 		if i < 2 {
